@@ -152,14 +152,15 @@ def load_one(lit: LineIterator) -> dict:
     atfrozen = fchk.get("MicOpt")
     if atfrozen is not None:
         result["atfrozen"] = atfrozen == -2
+    # The job type is matched case insensitively (SP, FOpt, FOPT, Freq, ...).
     run_types = {
-        "SP": "energy",
-        "Force": "energy_force",
-        "FOpt": "opt",
-        "Scan": "scan",
-        "Freq": "freq",
+        "sp": "energy",
+        "force": "energy_force",
+        "fopt": "opt",
+        "scan": "scan",
+        "freq": "freq",
     }
-    run_type = run_types.get(fchk["command"])
+    run_type = run_types.get(fchk["command"].lower())
     if run_type is not None:
         result["run_type"] = run_type
 
